@@ -62,10 +62,34 @@ func isNewFunc(f *ssa.Function) bool {
 	}
 	loadKnownFuncs()
 	o := outermost(f)
+	if org := o.Origin(); org != nil && org != o {
+		o = org // an instantiation of a generic function is as new as the generic
+	}
 	if o.Synthetic != "" {
 		return false
 	}
 	return !knownFuncs[fname(o)]
+}
+
+// isTransparentLib: small search helpers of the standard library whose bodies
+// are the very loops they replace; the decision-table engine looks through them
+// (slices.Contains(xs, v) is the loop "for _, x := range xs { if x == v … }").
+func isTransparentLib(f *ssa.Function) bool {
+	if f == nil || len(f.Blocks) == 0 {
+		return false
+	}
+	if fnPkgPath(f) != "slices" {
+		return false
+	}
+	n := f.Name()
+	if i := strings.Index(n, "["); i >= 0 {
+		n = n[:i]
+	}
+	switch n {
+	case "Contains", "ContainsFunc", "Index", "IndexFunc":
+		return true
+	}
+	return false
 }
 
 // dumpFuncs prints the census of declared module functions (for the ledger).
